@@ -182,6 +182,27 @@ def eager(ck, ctx):
     for bb, t in Q.sites_in(sv, "parse::Parser::read_vardef"):
         ok = C.must_pass(ctx, sv, bb, [x for x, _ in sins])
         ck.ob("eager", "every-scoped-binding-recorded", ok is True and bool(sins), "after a successfully parsed indented `name = value` the next line is reached only through the block's insert", span=t["loc"], fn=sv.nname)
+    # a block's later binding of the same name replaces the earlier one (SmallMap::insert overwrites in place, else appends)
+    sm = ck.need("fn smallmap::SmallMap::insert", F.body("smallmap::SmallMap::insert"))
+    scfg = ctx.cfg(sm)
+    SR = ctx.res(sm)
+    ck.functions.add(sm.nname)
+    g_eq = C.bool_gate_edges(ctx, sm, lambda e: strip(e)[0] == "call" and strip(e)[1].endswith("PartialEq>::eq") or (strip(e)[0] == "call" and strip(e)[1].endswith("::eq")))
+    writes = []
+    for bi in scfg.reach:
+        for s_ in sm.blocks[bi]["stmts"]:
+            if s_["k"] == "assign" and s_["place"]["p"] and any(p_["k"] == "deref" for p_ in s_["place"]["p"]) and s_["rv"]["k"] == "use" and s_["rv"]["op"]["k"] in ("copy", "move"):
+                src_ = strip(SR.stmt_rvalue(bi, s_))
+                if src_[0] == "param" and src_[1] == 3:
+                    writes.append(bi)
+    pushes_ = [bb_ for bb_, t_ in sm.calls() if callee_of(t_).endswith("Vec::push")]
+    it_none, it_some = C.option_edges(ctx, sm, lambda s_: s_[0] == "call" and s_[1].endswith("Iterator>::next"))
+    ok_sm = len(g_eq) == 1 and len(writes) == 1 and Q.gated(scfg, writes[0], g_eq)[0] and len(pushes_) == 1 and Q.gated(scfg, pushes_[0], it_none)[0]
+    if ok_sm:
+        # on the equal-key edge the overwrite is unavoidable and the push unreachable
+        st_ = [tt for (x, lab) in g_eq for tt in scfg.edge_targets(x, lab)]
+        ok_sm = pushes_[0] not in scfg.reach_avoid(st_) and not (set(scfg.returns()) & scfg.reach_avoid(st_, avoid_blocks=writes))
+    ck.ob("eager", "smallmap-insert-replaces", ok_sm, "SmallMap::insert overwrites the value of an equal key in place (and only then), otherwise appends after the whole scan", span=sm.loc, fn=sm.nname)
     C.single_writer(ck, ctx, "eager", "parse::Parser", "vars", ["parse::Parser::read", "parse::Parser::inherit"])
     C.single_writer(ck, ctx, "eager", VARS, "0", ["eval::Vars::insert"])
     # Vars::get_var yields a literal (no re-expansion of stored text)
